@@ -43,6 +43,7 @@ def make_query(r, shard, filters=True, names=None, strings=None, registry=None, 
     segments are guided so that most selectors hit.
     """
     numbers = None
+    big_doc = doc is not None and V.count_nodes(doc) > 120
     if doc is not None:
         dn, ds, numbers = Q.pools(doc)
         names = (list(dict.fromkeys(dn))[:12] + list(names or ["a", "b"])[:3]) or ["a"]
@@ -53,6 +54,9 @@ def make_query(r, shard, filters=True, names=None, strings=None, registry=None, 
         if doc is not None:
             g.doc = doc
             g.evalr = ev.Evaluator(registry)
+            if big_doc:
+                g.cheap_filters = True
+                g.max_filter_depth = 1
         if doc is not None and r.random() < 0.85:
             ast = g.guided_query(doc, min_segs=max(1, min_segs), max_segs=max_segs, hit_p=hit_p)
         else:
